@@ -170,8 +170,21 @@ func runC11(c *an.Ctx) {
 				continue
 			}
 			recv := an.Recv(call)
-			if recv == nil || an.IsFresh(recv) {
+			if recv == nil {
 				continue
+			}
+			if an.IsFresh(recv) {
+				// a fresh node has no encoding yet — unless this function already installed one
+				// (a decoder that keeps the as-serialised bytes must not reorder the links afterwards)
+				prior := false
+				for _, st := range an.StoresToField(fn, fEncoded, recv) {
+					if !an.IsNilConst(st.Val) && an.Reaches(fn, st, call, nil, nil) {
+						prior = true
+					}
+				}
+				if !prior {
+					continue
+				}
 			}
 			nO2++
 			after := an.AsInstrs(an.StoresToField(fn, fEncoded, recv))
@@ -182,6 +195,30 @@ func runC11(c *an.Ctx) {
 		}
 	}
 	c.Min("O2 sortLinks calls", nO2, 1)
+	// O2b: the dirty flag ("links need a sort") is cleared only after the sort has run
+	nO2b := 0
+	for _, fn := range fns {
+		for _, st := range an.FieldStores(fn, fDirty) {
+			if k, ok := an.ConstOf(st.Val); !ok || k.String() != "false" {
+				continue
+			}
+			_, base := an.FieldOf(st.Addr)
+			if an.IsFresh(base) {
+				continue
+			}
+			nO2b++
+			var sorts []ssa.Instruction
+			for _, call := range an.AllCalls(fn) {
+				if callee := call.Common().StaticCallee(); callee != nil && sorters[callee] && an.SameObj(an.Recv(call), base) {
+					sorts = append(sorts, call)
+				}
+			}
+			c.Check(an.MustPrecede(fn, st, sorts), "O2", "R-DOM", an.FuncName(fn), "linksDirty=false<=sortLinks", st.Pos(),
+				"the dirty flag is cleared only after the links were sorted",
+				"linksDirty is cleared on a path where the links were not sorted: the node is encoded with unsorted links (non-canonical bytes, CID depends on insertion order)")
+		}
+	}
+	c.Min("O2 linksDirty=false stores", nO2b, 1)
 
 	// ---- O3: discipline of the cached CID
 	nO3 := 0
